@@ -15,6 +15,9 @@ structure DictModel where
   numElements : Nat
   maxLength : Nat
   ordered : Bool            -- IDs are lexicographic ranks
+  rankOps : Bool := true    -- answers locateRank/extractRank
+  /-- the kind's ID of the string with lexicographic rank `i` (1-based); `none` = not fixed -/
+  idOf : Nat → Option Nat := fun i => some i
   hasPrefix : Bool
   hasSubstr : Bool
   hasTable : Bool
@@ -25,21 +28,45 @@ structure DictModel where
 def isHashKind (k : String) : Bool :=
   k == "HASHHF" || k == "HASHRPF" || k == "HASHUFFDAC" || k == "HASHRPDAC" || k == "BLOCKS"
 
+/-- XBW numbers its strings by the rank of the terminator leaf in XBW order,
+i.e. by the lexicographic rank of the *reversed* string (co-lexicographic
+order).  `colexId S i` = XBW ID of the string with lexicographic rank `i`. -/
+def colexId (S : List Str) (i : Nat) : Nat :=
+  match S[i - 1]? with
+  | none => 0
+  | some s => 1 + (S.filter fun t => slt t.reverse s.reverse).length
+
 /-- The specification-level model of a kind. -/
 def specModel (c : Case) : DictModel :=
   let S := c.strs.toList
   let k := c.kind
   let hash := isHashKind k
+  let xbw := k == "XBW"
   let n := S.length
+  let idOf : Nat → Option Nat := fun i => if hash then none else if xbw then some (colexId S i) else some i
+  -- inverse of idOf, as a table
+  let inv : List (Nat × Nat) := if xbw then (List.range n).map (fun j => (colexId S (j + 1), j + 1)) else []
   { S := S
     numElements := n
     maxLength := if k == "BLOCKS" then Spec.maxLen S else Spec.maxLen S + 1
-    ordered := !hash
+    ordered := !hash && !xbw
+    rankOps := !hash
+    idOf := idOf
     hasPrefix := !hash
-    hasSubstr := (k == "FMINDEX" && c.geti "bwt" 4 > 0) || k == "XBW"
-    hasTable := k != "XBW"
-    locate := fun q => if hash then (if Spec.locate S q = 0 then some 0 else none) else some (Spec.locate S q)
-    extract := fun i => if i = 0 || i > n then some none else if hash then none else some (Spec.extract S i) }
+    hasSubstr := (k == "FMINDEX" && c.geti "bwt" 4 > 0) || xbw
+    hasTable := !xbw
+    locate := fun q =>
+      let r := Spec.locate S q
+      if r = 0 then some 0 else idOf r
+    extract := fun i =>
+      if i = 0 || i > n then some none
+      else if hash then none
+      else if xbw then some ((inv.lookup i).bind (Spec.extract S))
+      else some (Spec.extract S i) }
+
+def mapIds (m : DictModel) (ids : List Nat) : List Nat :=
+  let l := ids.filterMap m.idOf
+  if m.ordered then l else l.mergeSort
 
 structure IterState where
   ids : Option (List Nat) := none
@@ -71,8 +98,8 @@ def runDict (c : Case) (m : DictModel) (emit : Nat → String → IO Unit) : IO 
       | some (some s) => emit k s!"E {strOrNull (some s)}"
       | none => emit k "E ?"
     | ["exts"] => emit k s!"XS {joinStrs (sortStrs S)}"
-    | ["pre", h] => emit k s!"P {joinIds (if m.hasPrefix then Spec.prefixIds S (unhex h) else [])}"
-    | ["sub", h] => emit k s!"B {joinIds (if m.hasSubstr then Spec.substrIds S (unhex h) else [])}"
+    | ["pre", h] => emit k s!"P {joinIds (mapIds m (if m.hasPrefix then Spec.prefixIds S (unhex h) else []))}"
+    | ["sub", h] => emit k s!"B {joinIds (mapIds m (if m.hasSubstr then Spec.substrIds S (unhex h) else []))}"
     | ["xpre", h] =>
       let ids := if m.hasPrefix then Spec.prefixIds S (unhex h) else []
       emit k s!"XP {joinStrs (ids.filterMap (Spec.extract S))}"
@@ -81,11 +108,15 @@ def runDict (c : Case) (m : DictModel) (emit : Nat → String → IO Unit) : IO 
       emit k s!"XB {joinStrs (ids.filterMap (Spec.extract S))}"
     | ["lrk", r] =>
       let r := r.toNat?.getD 0
-      if !m.ordered then emit k "LR 0"
-      else if 1 ≤ r && r ≤ m.numElements then emit k s!"LR {r}" else emit k "LR ?"
+      if !m.rankOps then emit k "LR 0"
+      else if 1 ≤ r && r ≤ m.numElements then
+        match m.idOf r with
+        | some i => emit k s!"LR {i}"
+        | none => emit k "LR ?"
+      else emit k "LR ?"
     | ["xrk", r] =>
       let r := r.toNat?.getD 0
-      if !m.ordered then emit k "XR NULL"
+      if !m.rankOps then emit k "XR NULL"
       else emit k s!"XR {strOrNull (Spec.extract S r)}"
     | ["tab"] =>
       if !m.hasTable then emit k "T -"
@@ -112,8 +143,8 @@ def runDict (c : Case) (m : DictModel) (emit : Nat → String → IO Unit) : IO 
       let p := unhex (rest.headD "-")
       let st : IterState :=
         match what with
-        | "pre" => if m.hasPrefix then { ids := some (Spec.prefixIds S p) } else {}
-        | "sub" => if m.hasSubstr then { ids := some (Spec.substrIds S p) } else {}
+        | "pre" => if m.hasPrefix then { ids := some (mapIds m (Spec.prefixIds S p)) } else {}
+        | "sub" => if m.hasSubstr then { ids := some (mapIds m (Spec.substrIds S p)) } else {}
         | "xpre" =>
           let l := (Spec.prefixIds S p).filterMap (Spec.extract S)
           if m.hasPrefix && !l.isEmpty then { strs := some l } else {}
